@@ -977,7 +977,7 @@ func (e *Env) trCall(n *ECall) Val {
 			e.fail("ret(%q): no such call seen yet", s.V)
 		}
 		return Val{T: u.heapCur(e.cur, g), S: srt, Ty: u.ghostTy[g]}
-	case "count", "counttrue0", "counttrue1":
+	case "count", "counttrue0", "counttrue1", "countnil0", "countnil1", "countnil2":
 		s, ok := n.Args[0].(*EStr)
 		if !ok {
 			e.fail("count(\"pattern\")")
@@ -987,6 +987,8 @@ func (e *Env) trCall(n *ECall) Val {
 			g = "$cnttrue:" + s.V + ":0"
 		} else if n.Fn == "counttrue1" {
 			g = "$cnttrue:" + s.V + ":1"
+		} else if strings.HasPrefix(n.Fn, "countnil") {
+			g = "$cntnil:" + s.V + ":" + n.Fn[len("countnil"):]
 		}
 		u.regHeap(g, "Int")
 		return Val{T: u.heapCur(e.cur, g), S: "Int", Ty: intT}
